@@ -1,0 +1,17 @@
+//go:build verif
+
+package group
+
+import (
+	"github.com/bandprotocol/chain/v3/cylinder/client"
+	"github.com/bandprotocol/chain/v3/cylinder/store"
+	"github.com/bandprotocol/chain/v3/pkg/tss"
+	"github.com/bandprotocol/chain/v3/x/tss/types"
+)
+
+// GetOwnPrivKeyForVerif exposes getOwnPrivKey (the daemon's round-3 share handling: decrypt every share,
+// verify it against the sender's commitments, build a complaint for a bad one, otherwise sum the shares)
+// to the verification harness. Compiled only with the `verif` build tag.
+func GetOwnPrivKeyForVerif(dkg store.DKG, groupRes *client.GroupResult) (tss.Scalar, []types.Complaint, error) {
+	return getOwnPrivKey(dkg, groupRes)
+}
